@@ -15,6 +15,7 @@ import (
 	"math"
 	"sort"
 	"strings"
+	"sync"
 	"time"
 	"unicode/utf8"
 
@@ -295,6 +296,36 @@ func jsonMain(args []string) {
 			}
 		}
 	}
+	// the format table under concurrent FIRST writers (two pipelines of one type share the event): every
+	// entry whose FormattedAs returned is there, under its own key, with its own bytes
+	rounds := 60000
+	if *n > 50000 {
+		rounds = 600000
+	}
+	lost := 0
+	for r := 0; r < rounds && lost == 0; r++ {
+		e := &eventlogger.Event{Type: "t"}
+		start := make(chan struct{})
+		var wg sync.WaitGroup
+		for g := 0; g < 4; g++ {
+			wg.Add(1)
+			go func(g int) {
+				defer wg.Done()
+				<-start
+				e.FormattedAs(fmt.Sprintf("fmt-%d", g), []byte{byte(g)})
+			}(g)
+		}
+		close(start)
+		wg.Wait()
+		for g := 0; g < 4; g++ {
+			if b, ok := e.Format(fmt.Sprintf("fmt-%d", g)); !ok || len(b) != 1 || b[0] != byte(g) {
+				lost++
+				oracle("C14 format table: FormattedAs(%q) returned, yet Format gives %v, %v after concurrent first writers (round %d)", fmt.Sprintf("fmt-%d", g), b, ok, r)
+				break
+			}
+		}
+	}
+	st.hit("table:concurrent-first-writers")
 	o.close()
 	st.write(*out)
 	if len(st.Oracle) > 0 {
